@@ -37,7 +37,7 @@ DECODERS = [
     ("merkle_tree_batch_commitment", r"merkle_tree/commitment\.rs.*>::from_bytes$", None),
     ("initializer", r"participant/initializer\.rs.*>::from_bytes$", "initializer"),
     ("parameters", r"protocol/parameters\.rs.*>::from_bytes$", "parameters"),
-    ("aggregate_verification_key", r"concatenation/aggregate_key\.rs.*>::from_bytes$", None),
+    ("aggregate_verification_key", r"concatenation/aggregate_key\.rs.*>::from_bytes$", "aggregate_verification_key"),
 ]
 
 
